@@ -211,6 +211,44 @@ theorem ask_leaves_table (c : Client) (addr : Bytes) (prev : Conn) (slot : Nat) 
   · split <;> simp
   · simp
 
+/-- ASK is a one-shot redirect: for every client state, target address, previous connection and slot the write
+    table after `redirectOrNew(…, RedirectAsk)` is the table before — also when the target is a node the client
+    has no connection for yet (a connection is created and filed, the slot keeps pointing at its owner). -/
+theorem ask_leaves_slot_table (c : Client) (addr : Bytes) (prev : Conn) (slot : Nat) :
+    ∀ s, (redirectOrNew c addr prev slot false).2.wslots s = c.wslots s := by
+  intro s; rw [ask_leaves_table]
+
+/-- MOVED teaches the table: when the named node is new to the client (no connection filed under the address)
+    or is the very connection that answered (it is re-created), the slot of the command points at the
+    connection the command is re-sent on, every other slot is untouched; when the node is already known under
+    another connection the table is left to the (lazy) refresh. Key-less commands never patch it. -/
+theorem moved_updates_slot_table (c : Client) (addr : Bytes) (prev : Conn) (slot : Nat) (hs : slot ≠ initSlot) :
+    ((cget addr c.conns = none ∨ ∃ h, cget addr c.conns = some (prev, h)) →
+        (redirectOrNew c addr prev slot true).2.wslots slot = some (redirectOrNew c addr prev slot true).1 ∧
+        ∀ s, s ≠ slot → (redirectOrNew c addr prev slot true).2.wslots s = c.wslots s) ∧
+    (∀ cc h, cget addr c.conns = some (cc, h) → prev ≠ cc →
+        (redirectOrNew c addr prev slot true).1 = cc ∧ (redirectOrNew c addr prev slot true).2.wslots = c.wslots) := by
+  constructor
+  · intro h
+    unfold redirectOrNew
+    simp only
+    rcases h with h | ⟨hid, h⟩
+    · rw [h]; simp [hs]; intro s h1 h2; exact absurd h2 h1
+    · rw [h]; simp [hs]; intro s h1 h2; exact absurd h2 h1
+  · intro cc h hg hne
+    unfold redirectOrNew
+    simp only
+    rw [hg]
+    simp [hne]
+
+theorem moved_keyless_leaves_table (c : Client) (addr : Bytes) (prev : Conn) :
+    (redirectOrNew c addr prev initSlot true).2.wslots = c.wslots := by
+  unfold redirectOrNew
+  simp only
+  split
+  · split <;> simp
+  · simp
+
 /-- With `MaxMovedRedirections = k > 0` the redirect loop sends the command at most `k − red` more times
     (`red` = redirects already followed), whatever the nodes answer. -/
 theorem redirect_bound (o : Opt) (cache : Bool) (cmd : Cmd) (cc : Conn) (k : Nat) (hk : o.maxRedir = k) (hpos : k > 0) :
